@@ -498,6 +498,16 @@ func (o *coreOracle) checkRolloutStatus(s *Sim, w *Write) {
 	if jumpPending && ns.CurrentStepIndex == rs.NextStepIndex && (ns.CurrentStepIndex != rs.CurrentStepIndex ||
 		ns.CurrentStepState == v1beta1.CanaryStepStateTrafficRouting || ns.CurrentStepState == v1beta1.CanaryStepStateInit) {
 		s.probe("c02.jump") // includes a jump onto the current step (same replicas: straight to traffic routing)
+		// G6: a jump may skip the upgrade of its target only when the target asks for exactly the pods that are there
+		// already, i.e. the same replicas as the step that was left
+		si, di := int(rs.CurrentStepIndex), int(ns.CurrentStepIndex)
+		if ns.CurrentStepState == v1beta1.CanaryStepStateTrafficRouting && si >= 1 && si <= len(steps) && di >= 1 && di <= len(steps) {
+			a, b := steps[si-1].Replicas, steps[di-1].Replicas
+			if a != nil && b != nil && (a.Type != b.Type || a.IntVal != b.IntVal || a.StrVal != b.StrVal) {
+				s.Violate("C02", "G6-jump", "G6/skip-upgrade/"+fam, w.Seq, "jump from step %d (replicas %s) to step %d (replicas %s) went straight to StepTrafficRouting: the target's pods were never upgraded or reported ready",
+					si, a.String(), di, b.String())
+			}
+		}
 		return
 	}
 	if ns.CurrentStepIndex != rs.CurrentStepIndex {
